@@ -39,6 +39,9 @@ inductive Beh where
   | extractorRaises (m : String)
   /-- `comparator(...)` raises `Exception(m)` -/
   | comparatorRaises (m : String)
+  /-- replay and comparison succeed with `ComparatorResult(s, msg)`, but the result carries a replayed value that pickles in
+      the worker and cannot be unpickled by the parent: reading it from the result queue raises `err` in the parent -/
+  | unreadable (s : Status) (msg : String) (err : String)
   /-- the process executing the player exits (`os._exit`) -/
   | workerExits
   /-- the player never returns -/
@@ -109,6 +112,7 @@ def inner (id : Id) : Beh → Option PCR
   | .extractorRaises m => some ⟨.equalizerFailure, some m, some ⟨id, some m⟩, none⟩
   | .comparatorRaises m => some ⟨.equalizerFailure, some m, some ⟨id, none⟩, some (false, false)⟩
   | .late s m => some ⟨s, some m, some ⟨id, none⟩, some (false, false)⟩
+  | .unreadable s m _ => some ⟨s, some m, some ⟨id, none⟩, some (false, false)⟩
   | .workerExits => none
   | .hang => none
 
@@ -130,7 +134,7 @@ def post (cfg : Cfg) (id : Id) (r : PCR) : Comparison :=
 
 /-- behaviours that mean the same in the parent's own process (no process to lose, no timeout to miss) -/
 def Beh.inProcessMeaningful : Beh → Bool
-  | .workerExits | .hang | .late _ _ => false
+  | .workerExits | .hang | .late _ _ | .unreadable _ _ _ => false
   | _ => true
 
 /-- In-process run (`compare_in_dedicated_process = False`): nothing is yielded any more once the player takes
@@ -148,6 +152,7 @@ def verdictAlone (cfg : Cfg) (t : Task) : Comparison :=
   | .workerExits => outerFailure t.1 diedMsg
   | .hang => outerFailure t.1 timeoutMsg
   | .late _ _ => outerFailure t.1 timeoutMsg
+  | .unreadable _ _ err => outerFailure t.1 err
   | b =>
     match inner t.1 b with
     | some r => post cfg t.1 r
@@ -244,6 +249,9 @@ def workerRun (st : PState) (e q : Nat) (t : Task) : PState :=
   | .workerExits => { st with live := st.live.erase e }
   | .hang => { st with busy := e :: st.busy }
   | .late _ _ => { st with busy := e :: st.busy }
+  -- the worker answers in time; what the parent gets out of the queue is the unpickling error (the same path through
+  -- `run_comparison`'s handler as a `(False, text)` answer)
+  | .unreadable _ _ err => pushRes st q (.fail err)
   | b =>
     match inner t.1 b with
     | some r => pushRes st q (.ok r)
